@@ -391,6 +391,473 @@ def sec_uri(cx):
 
 
 # --------------------------------------------------------------------------
+# CSV / TSV
+# --------------------------------------------------------------------------
+CSV_IMPORTS = "From YQ Require Import Base.Str Model.Csv."
+CSV_CH = list("abz019 ,;\t|\"\n\r'\\.:-") + ["\u00e9", "\u4e2d", "\U0001F600", "\u00a0", "\u2028", "\u3000", "\ufeff", "\u0085", " ", "\"", ",", "\n"]
+CSV_FIXED = ["", " ", "a", "\"", "\"\"", ",", "\n", "\r", "\r\n", "a\r\nb", "\\.", "\\", " a", "a ", "\ta", "a,b", "a\"b", "\"a\"", "a\nb", "x\r",
+             "\u00a0x", "\u2028", "\u3000y", "\ufeffk", "a;b", "a\tb", "'", "''", "#x", "a #b", "\"a\",\"b\"", "\n\n", ",,", "\"\n\","]
+SEPS = {"csv": [",", ";", "|", ":"], "tsv": ["\t"]}
+
+
+def gen_field(rng, fixed_p=0.35):
+    if rng.random() < fixed_p:
+        return rng.choice(CSV_FIXED)
+    ln = rng.choice([1, 1, 2, 3, 4, 6, 10])
+    return "".join(rng.choice(CSV_CH) for _ in range(ln))
+
+
+def gen_rows(rng):
+    ncol = rng.choice([1, 1, 2, 3, 4])
+    nrow = rng.choice([1, 2, 2, 3, 5])
+    return [[gen_field(rng) for _ in range(ncol)] for _ in range(nrow)]
+
+
+def coq_rows(rows):
+    return "[" + ";".join("[" + ";".join(vlib.coq_str(f) for f in r) + "]" for r in rows) + "]"
+
+
+def py_csv_read(text, sep):
+    rd = csv.reader(io.StringIO(text, newline=""), delimiter=sep, strict=True)
+    return [row for row in rd]
+
+
+def py_csv_write(rows, sep, term="\n", quote_all=False):
+    """ground-truth RFC 4180 writer (independent of yq and of Go): a field is quoted when it holds the separator, a
+    quote, CR or LF (or always), quotes are doubled; a lone empty field is written quoted"""
+    lines = []
+    for r in rows:
+        fs = []
+        for f in r:
+            if quote_all or any(c in f for c in (sep, '"', "\r", "\n")) or (f == "" and len(r) == 1):
+                fs.append('"' + f.replace('"', '""') + '"')
+            else:
+                fs.append(f)
+        lines.append(sep.join(fs) + term)
+    return "".join(lines)
+
+
+def rows_defect(rows):
+    """which documented limit of encoding/csv a row set hits (None: inside the faithful domain)"""
+    if any(r == [""] for r in rows):
+        return "csv-single-empty"
+    return None
+
+
+def ser_records(recs):
+    return b"".join(b"".join(f + b"\0" for f in r) + b"\1" for r in recs)
+
+
+def objs_from_dump(node):
+    """decoded csv document -> list of [k, v, k, v ...] raw byte fields, or None"""
+    if node["k"] != "q":
+        return None
+    out = []
+    for m in node["c"]:
+        if m["k"] != "m" or any(c["k"] != "s" for c in m["c"]):
+            return None
+        out.append([sval(c) for c in m["c"]])
+    return out
+
+
+@section
+def sec_csv(cx):
+    chk, rng = cx.chk, cx.rng
+    # ---------- arrays of rows: yq writes, python reads; model correspondence ----------
+    docs = []
+    for fmt in ("csv", "tsv"):
+        for f in CSV_FIXED:
+            docs.append((fmt, SEPS[fmt][0], [[f, "k"], ["v", f]]))
+            docs.append((fmt, SEPS[fmt][0], [[f]]))
+    for _ in range(cx.n(500, 9000)):
+        fmt = rng.choice(["csv", "csv", "tsv"])
+        docs.append((fmt, rng.choice(SEPS[fmt]), gen_rows(rng)))
+    reqs = [{"op": "c14_enc", "fmt": fmt, "sep": sep, "node": Q([Q([S(f) for f in r]) for r in rows])} for fmt, sep, rows in docs]
+    resp = vlib.yqh_parallel(reqs)
+    cases, inputs, texts = [], [], []
+    for (fmt, sep, rows), r in zip(docs, resp):
+        rp = {"fmt": fmt, "sep": sep, "rows": rows}
+        if not ok(r):
+            cx.viol("csvenc", dict(rp, response=r), "csv encoder failed on an array of string rows")
+            continue
+        out = vlib.b64d(r["out_b64"])
+        if not any("\0" in f or "\1" in f for row in rows for f in row):
+            cases.append(("(%d, %s)" % (ord(sep), coq_rows(rows)), b"O" + out))
+            inputs.append(rp)
+        special = any(c in f for row in rows for f in row for c in (sep, '"', "\n", "\r")) or any(f[:1] == " " for row in rows for f in row)
+        chk.count(("csvw", fmt, sep, json.dumps(rows)), nontrivial=special,
+                  sample={"fmt": fmt, "sep": sep, "rows": rows, "text": out.decode("utf-8", "replace")} if special and len(out) < 60 else None)
+        try:
+            back = py_csv_read(out.decode("utf-8"), sep)
+        except Exception as e:
+            back = "python csv reader failed: %s" % e
+        if back != rows:
+            d = rows_defect(rows)
+            if d and [x for x in back if x != []] == [x for x in rows if x != [""]]:
+                chk.known_finding(d, "rows %r" % (rows,))
+                if chk.is_known(d):
+                    continue
+            cx.viol("csvenc", dict(rp, impl_out=out.decode("utf-8", "replace"), python_reads=back),
+                    "python's csv reader does not map yq's %s output back to the rows" % fmt)
+        texts.append((fmt, sep, out, rows))
+    cx.correspond("csvwrite", CSV_IMPORTS, "(fun p => csv_write_obs (fst p) (snd p))", cases, inputs, "Model/Csv.v csv_write vs encoder_csv.go + encoding/csv Writer")
+
+    # ---------- text -> objects: python writes (several dialects), yq reads; plus yq's own output and malformed text ----------
+    dtexts = []     # (fmt, sep, text bytes, expected records or None)
+    for fmt, sep, rows in docs[:: 2]:
+        for term, qa in (("\n", False), ("\r\n", False), ("\n", True)):
+            if rng.random() < 0.6 and (qa or rows[0][0] != "\ufeff"):     # a text that is only a byte order mark has no header
+                dtexts.append((fmt, sep, py_csv_write(rows, sep, term, qa).encode(), rows))
+    for fmt, sep, out, rows in texts[:: 3]:
+        dtexts.append((fmt, sep, out, None))
+    for _ in range(cx.n(400, 6000)):
+        ln = rng.choice([1, 2, 3, 5, 8, 12])
+        t = "".join(rng.choice(['"', ",", "\n", "\r", "a", "b", " ", '"', ",", "\n", "\r\n", '""']) for _ in range(ln))
+        dtexts.append(("csv", ",", t.encode(), None))
+    dtexts += [("csv", ",", b"\xef\xbb\xbfa,b\n1,2\n", [["a", "b"], ["1", "2"]]), ("csv", ",", b"", None), ("csv", ",", b"a,b\n", None),
+               ("csv", ",", b"a,b\n1\n", None), ("csv", ",", b"a\n\n\n1\n", [["a"], ["1"]]), ("csv", ",", b"a,b\n1,2", [["a", "b"], ["1", "2"]])]
+    resp = vlib.yqh_parallel([{"op": "c14_dec", "fmt": fmt, "sep": sep, "csv_auto": False, "text_b64": vlib.b64e(t)} for fmt, sep, t, _ in dtexts])
+    cases, inputs = [], []
+    for (fmt, sep, t, want), r in zip(dtexts, resp):
+        rp = {"fmt": fmt, "sep": sep, "text_b64": vlib.b64e(t), "text": t.decode("utf-8", "replace")}
+        if r is None or r.get("panic") or r.get("timeout") or r.get("crash") or r.get("harness_error"):
+            cx.viol("csvdec", dict(rp, response=r), "csv decoder crashed")
+            continue
+        if ok(r):
+            got = objs_from_dump(r["node"])
+            obs = b"O" + ser_records(got) if got is not None else b"?"
+        else:
+            got = None
+            obs = b"N" if r.get("errclass") == "eof" else b"E"
+        if b"\0" not in t and b"\1" not in t:
+            cases.append(("(%d, %s)" % (ord(sep), vlib.coq_str(t)), obs))
+            inputs.append(rp)
+        chk.count(("csvr", fmt, sep, t), nontrivial=want is not None and len(t) > 4)
+        if want is None:
+            continue
+        header, body = list(want[0]), want[1:]
+        if t.startswith(b"\xef\xbb\xbf") and header[0].startswith("\ufeff"):
+            header[0] = header[0][1:]       # a byte order mark in front of the text is not data
+        exp = [[x.encode() for pair in zip(header, row) for x in pair] for row in body]
+        if got != exp:
+            crlf = any("\r\n" in f for row in want for f in row)
+            if crlf and got == [[x.replace(b"\r\n", b"\n") for x in row] for row in exp]:
+                chk.known_finding("csv-crlf", "text %r" % t[:60])
+                if chk.is_known("csv-crlf"):
+                    continue
+            cx.viol("csvdec", dict(rp, want=want, response=r), "yq's %s decoder does not return the records that the text (ground truth written here) denotes" % fmt)
+    cx.correspond("csvread", CSV_IMPORTS, "(fun p => csv_decode_obs (fst p) (snd p))", cases, inputs, "Model/Csv.v csv_decode vs decoder_csv_object.go + encoding/csv Reader")
+    cx.dist["csv"] = {"row_documents": len(docs), "decode_texts": len(dtexts)}
+
+
+# --------------------------------------------------------------------------
+# properties
+# --------------------------------------------------------------------------
+PROPS_IMPORTS = "From YQ Require Import Base.Str Model.Props."
+WS = " \t\f"
+
+
+def java_props_read(text):
+    """independent reader: java.util.Properties.load semantics (ordered list of (key, value))"""
+    lines = re.split(r"\r\n|\n|\r", text)
+    out, i = [], 0
+    while i < len(lines):
+        line = lines[i].lstrip(WS)
+        i += 1
+        if line == "" or line[0] in "#!":
+            continue
+        while (len(line) - len(line.rstrip("\\"))) % 2 == 1:
+            line = line[:-1]
+            if i < len(lines):
+                line += lines[i].lstrip(WS)
+                i += 1
+            else:
+                break
+        k, j = [], 0
+        while j < len(line):
+            c = line[j]
+            if c == "\\":
+                j += 1
+                k.append("\\" + (line[j] if j < len(line) else ""))
+                if j < len(line) and line[j] == "u":
+                    k[-1] = "\\" + line[j:j + 5]
+                    j += 4
+            elif c in "=:" + WS:
+                break
+            else:
+                k.append(c)
+            j += 1
+        while j < len(line) and line[j] in WS:
+            j += 1
+        if j < len(line) and line[j] in "=:":
+            j += 1
+            while j < len(line) and line[j] in WS:
+                j += 1
+        out.append((_java_unesc("".join(k)), _java_unesc(line[j:])))
+    return out
+
+
+def _java_unesc(s):
+    out, j = [], 0
+    while j < len(s):
+        c = s[j]
+        if c == "\\" and j + 1 < len(s):
+            d = s[j + 1]
+            j += 2
+            if d == "u":
+                out.append(chr(int(s[j:j + 4], 16)))
+                j += 4
+            else:
+                out.append({"t": "\t", "n": "\n", "f": "\f", "r": "\r"}.get(d, d))
+        elif c == "\\":
+            j += 1
+        else:
+            out.append(c)
+            j += 1
+    return "".join(out)
+
+
+def java_props_write(kvs, sep="=", rng=None):
+    """independent writer: java.util.Properties.store escaping (UTF-8 kept as is)"""
+    def esc(s, key):
+        out = []
+        for i, c in enumerate(s):
+            if c == " " and (key or i == 0):
+                out.append("\\ ")
+            elif c in "\t\n\r\f":
+                out.append({"\t": "\\t", "\n": "\\n", "\r": "\\r", "\f": "\\f"}[c])
+            elif c in "=:#!\\":
+                out.append("\\" + c)
+            elif rng is not None and ord(c) > 127 and ord(c) < 0x10000 and rng.random() < 0.3:
+                out.append("\\u%04X" % ord(c))
+            else:
+                out.append(c)
+        return "".join(out)
+    return "".join(esc(k, True) + sep + esc(v, False) + "\n" for k, v in kvs)
+
+
+def props_flatten(doc, path="", brackets=False):
+    """the property's reading of a tree as properties: paths joined with '.', sequence indices as path elements"""
+    if isinstance(doc, dict):
+        out = []
+        for k, v in doc.items():
+            out += props_flatten(v, k if path == "" else path + "." + k, brackets)
+        return out
+    if isinstance(doc, list):
+        out = []
+        for i, v in enumerate(doc):
+            out += props_flatten(v, str(i) if path == "" else (path + "[%d]" % i if brackets else path + "." + str(i)), brackets)
+        return out
+    return [(path, doc)]
+
+
+def props_unflatten(kvs):
+    """expected tree for keys made of '.'-separated segments (decimal segments are sequence indices)"""
+    root = {}
+    for key, val in kvs:
+        parts = [int(x) if re.fullmatch(r"[0-9]+", x) else x for x in key.split(".")]
+        cur, parent, pk = root, None, None
+        for idx, part in enumerate(parts):
+            last = idx == len(parts) - 1
+            nxt = None if last else ([] if isinstance(parts[idx + 1], int) else {})
+            if isinstance(part, int):
+                if not isinstance(cur, list):
+                    return None
+                while len(cur) <= part:
+                    cur.append(None)
+                if last:
+                    cur[part] = val
+                else:
+                    if cur[part] is None:
+                        cur[part] = nxt
+                    cur = cur[part]
+            else:
+                if not isinstance(cur, dict):
+                    return None
+                if last:
+                    cur[part] = val
+                else:
+                    if part not in cur:
+                        cur[part] = nxt
+                    cur = cur[part]
+    return root
+
+
+PROP_CH = list("abkz09 =:#!\\.\t-_/$u{}") + ["é", "中", "\U0001F600", "\n", "\r", "\f", " ", "=", ":"]
+PROP_FIXED = ["a", "a b", "a=b", "a:b", "#a", "!a", " a", "a ", "\\", "a\\", "\\u0041", "a.b", "1", "x1", "é", "\ta", "a\nb", "tr\\u", "${", "${a}", "$", "a#b", "a!b", "-", ""]
+
+
+def gen_prop_str(rng, key):
+    if rng.random() < 0.3:
+        s = rng.choice(PROP_FIXED)
+    else:
+        s = "".join(rng.choice(PROP_CH) for _ in range(rng.choice([1, 2, 3, 5, 8])))
+    if key:
+        s = s.replace(".", "") or "k"
+        if re.fullmatch(r"[0-9]+", s):
+            s = "n" + s
+    return s
+
+
+def prop_defect(kvs):
+    """known limits of the magiconair writer/loader that a flat map can hit (None: inside the faithful domain)"""
+    for k, v in kvs:
+        if "${" in v:
+            return "props-expansion"
+    for k, v in kvs:
+        if "=" in k or k[:1] in "#!":
+            return "props-key-escape"
+    for k, v in kvs:
+        if v[:1] == " ":
+            return "props-leading-space"
+    return None
+
+
+def gen_prop_tree(rng, depth=0):
+    r = rng.random()
+    if depth >= 3 or r < 0.45:
+        return gen_prop_str(rng, False)
+    if r < 0.65:
+        return [gen_prop_tree(rng, depth + 1) for _ in range(rng.randrange(1, 4))]
+    d = {}
+    for _ in range(rng.randrange(1, 4)):
+        d[gen_prop_str(rng, True)] = gen_prop_tree(rng, depth + 1)
+    return d
+
+
+def coq_pnode(doc):
+    if isinstance(doc, dict):
+        return "PMap [" + ";".join("(%s, %s)" % (vlib.coq_str(k), coq_pnode(v)) for k, v in doc.items()) + "]"
+    if isinstance(doc, list):
+        return "PSeq [" + ";".join(coq_pnode(v) for v in doc) + "]"
+    return "PScalar " + vlib.coq_str(doc)
+
+
+def ser_kvs(kvs):
+    return b"".join(k + b"\0" + v + b"\1" for k, v in kvs)
+
+
+@section
+def sec_props(cx):
+    chk, rng = cx.chk, cx.rng
+    # ---------- encode: flat string maps and nested trees ----------
+    docs = []
+    for k in PROP_FIXED:
+        k2 = k.replace(".", "") or "k"
+        if not re.fullmatch(r"[0-9]+", k2):
+            docs.append(({k2: "v", "z": k}, " = ", False))
+    for _ in range(cx.n(350, 6000)):
+        d = {}
+        for _ in range(rng.randrange(1, 5)):
+            d[gen_prop_str(rng, True)] = gen_prop_str(rng, False)
+        docs.append((d, rng.choice([" = ", " = ", "=", ":", " : ", " ="]), False))
+    for _ in range(cx.n(250, 4000)):
+        t = gen_prop_tree(rng)
+        if isinstance(t, (dict, list)):
+            docs.append((t, " = ", rng.random() < 0.25))
+    resp = vlib.yqh_parallel([{"op": "c14_enc", "fmt": "props", "props_sep": sep, "props_brackets": br, "node": to_node(d)} for d, sep, br in docs])
+    cases, inputs, texts = [], [], []
+    for (d, sep, br), r in zip(docs, resp):
+        rp = {"doc": d, "sep": sep, "brackets": br}
+        want = props_flatten(d, "", br)
+        defect = prop_defect(want)
+        flat = isinstance(d, dict) and all(isinstance(v, str) for v in d.values())
+        chk.count(("propsw", json.dumps(d), sep, br), nontrivial=any(c in k + v for k, v in want for c in " =:#!\\\n\t") or not flat,
+                  sample={"doc": d, "text": vlib.b64d(r["out_b64"]).decode("utf-8", "replace")} if ok(r) and not flat and len(json.dumps(d)) < 70 else None)
+        if not ok(r):
+            if defect == "props-expansion" and failed_cleanly(r):
+                chk.known_finding(defect, "doc %r" % (d,))
+                if chk.is_known(defect):
+                    continue
+            cx.viol("propsenc", dict(rp, response=r), "properties encoder failed on a tree of strings")
+            continue
+        out = vlib.b64d(r["out_b64"])
+        if defect != "props-expansion" and not any("\0" in k + v or "\1" in k + v for k, v in want):
+            cases.append(("(%s, %s, %s)" % (vlib.coq_str(sep), "true" if br else "false", coq_pnode(d)), b"O" + out))
+            inputs.append(rp)
+        try:
+            back = java_props_read(out.decode("utf-8"))
+        except Exception as e:
+            back = "reader failed: %s" % e
+        dedup = {}
+        for k, v in want:
+            dedup[k] = v
+        if back != [(k, v) for k, v in dedup.items() if k != ""]:
+            if defect:
+                chk.known_finding(defect, "doc %r" % (d,))
+                if chk.is_known(defect):
+                    continue
+            cx.viol("propsenc", dict(rp, impl_out=out.decode("utf-8", "replace"), reader=back, want=want),
+                    "a java.util.Properties-style reader does not map yq's properties output back to the path/value pairs of the document")
+        elif not br and defect is None:
+            texts.append((out, d))
+    cx.correspond("propsenc", PROPS_IMPORTS, "(fun p => props_encode_obs (fst (fst p)) (snd (fst p)) (snd p))", cases, inputs,
+                  "Model/Props.v props_encode vs encoder_properties.go + magiconair writer")
+
+    # ---------- decode: ground truth written java-style; yq's own output; adversarial text ----------
+    dtexts = []
+    for d, sep, br in docs:
+        if br:
+            continue
+        want = props_flatten(d)
+        if any(k == "" for k, _ in want):
+            continue
+        sep2 = rng.choice(["=", " = ", ":", " : ", " ", "\t=\t", "= "])
+        if sep2.strip(WS) == "" and any(v[:1] in "=:" for _, v in want):
+            sep2 = "="
+        dtexts.append((java_props_write(want, sep2, rng).encode(), want))
+    for out, d in texts[:: 3]:
+        dtexts.append((out, props_flatten(d)))
+    for _ in range(cx.n(300, 5000)):
+        t = "".join(rng.choice(["a", "b", " ", "=", ":", "\\", "\n", "\r", "#", "!", "\t", "u0041", "\\u00e9", "\\n", "\\ ", "\\\n", "1", "."]) for _ in range(rng.choice([1, 2, 3, 5, 8, 13])))
+        dtexts.append((t.encode(), None))
+    dtexts += [(b"# c\na = 1\n! d\n\nb : 2\nc 3\nd\n", [("a", "1"), ("b", "2"), ("c", "3"), ("d", "")]), (b"a = l1 \\\n    l2\n", [("a", "l1 l2")]),
+               (b"", None), (b"a=${a}\n", None), (b"a=${\n", None), (b"k=v", [("k", "v")]), (b"a.b=1\na.c=2\n", [("a.b", "1"), ("a.c", "2")])]
+    resp = vlib.yqh_parallel([{"op": "c14_dec", "fmt": "props", "text_b64": vlib.b64e(t)} for t, _ in dtexts])
+    cases, inputs = [], []
+    for (t, want), r in zip(dtexts, resp):
+        rp = {"text_b64": vlib.b64e(t), "text": t.decode("utf-8", "replace")}
+        if r is None or r.get("panic") or r.get("timeout") or r.get("crash") or r.get("harness_error"):
+            cx.viol("propsdec", dict(rp, response=r), "properties decoder crashed")
+            continue
+        got = from_node(r["node"], typed=False) if ok(r) else None
+        try:
+            jr = java_props_read(t.decode("utf-8"))
+        except Exception:
+            jr = None
+        simple = jr is not None and all(k != "" and "." not in k and not re.fullmatch(r"[0-9]+", k) for k, _ in jr) and "${" not in t.decode("utf-8", "replace")
+        if simple and b"\0" not in t and b"\1" not in t and b"\\u" not in t.replace(b"\\\\", b""):
+            # flat result: compare the ordered key/value list with the model's lexer + ordered-map semantics
+            if ok(r) and isinstance(got, dict) and all(isinstance(v, str) for v in got.values()):
+                obs = b"O" + ser_kvs([(k.encode(), v.encode()) for k, v in got.items()])
+            elif ok(r):
+                obs = b"?"
+            else:
+                obs = b"N" if r.get("errclass") == "eof" else b"E"
+            cases.append((vlib.coq_str(t), obs))
+            inputs.append(rp)
+        chk.count(("propsr", t), nontrivial=want is not None and len(t) > 3)
+        if want is None:
+            continue
+        if jr != [(k, v) for k, v in want]:
+            dd = {}
+            for k, v in want:
+                dd[k] = v
+            if jr is None or dict(jr) != dd:
+                cx.broken.append("generator: the java-style reader does not read back the java-style writer on %r" % t[:80])
+                continue
+        exp = props_unflatten(want)
+        if got != exp:
+            if "${" in t.decode("utf-8", "replace") and not ok(r):
+                chk.known_finding("props-expansion", "text %r" % t[:60])
+                if chk.is_known("props-expansion"):
+                    continue
+            cx.viol("propsdec", dict(rp, want=exp, got=got, response=r), "yq's properties decoder does not build the tree that the text (written java-style here) denotes")
+    cx.correspond("propsdec", PROPS_IMPORTS, "props_decode_obs", cases, inputs, "Model/Props.v props_parse vs decoder_properties.go + magiconair lexer")
+    cx.dist["props"] = {"documents": len(docs), "decode_texts": len(dtexts)}
+
+
+# --------------------------------------------------------------------------
 # replay / run
 # --------------------------------------------------------------------------
 def replay(rp):
